@@ -117,6 +117,47 @@ def computed_bipartite(L, R, E, order="sorted", base="BipartiteGraph", name=None
     return ComputedBipartite(L, R, E, name)
 
 
+def range_bipartite(L, R, kind="parity", name=None):
+    """A bipartite graph of a user class written like the library's CompleteBipartiteGraph -- neighbourhoods are
+    `range` objects computed on demand -- but not complete: kind 'parity' joins u to the right vertices of u's parity
+    (an increasing range with step 2), 'descending' joins u to all of them listed downwards (range(R, 0, -1)),
+    'window' joins u to u..min(u+2, R) (a unit range that does not start at 1).  Returns (graph, edge list)."""
+    import cnfgen.graphs as g
+
+    def rn(u):
+        if kind == "parity":
+            return range(2 - u % 2, R + 1, 2)
+        if kind == "descending":
+            return range(R, 0, -1)
+        return range(min(u, R + 1), min(u + 2, R) + 1)
+
+    class RangeBipartite(g.BaseBipartiteGraph):
+        def __init__(self, L, R, name=None):
+            g.BaseBipartiteGraph.__init__(self, L, R, name)
+
+        def has_edge(self, u, v):
+            return 1 <= u <= self.lorder and v in rn(u)
+
+        def add_edge(self, u, v):
+            pass
+
+        def number_of_edges(self):
+            return sum(len(rn(u)) for u in range(1, self.lorder + 1))
+
+        def right_neighbors(self, u):
+            if not (1 <= u <= self.lorder):
+                raise ValueError("Invalid choice of vertex")
+            return rn(u)
+
+        def left_neighbors(self, v):
+            if not (1 <= v <= self.rorder):
+                raise ValueError("Invalid choice of vertex")
+            return [u for u in range(1, self.lorder + 1) if v in rn(u)]
+
+    B = RangeBipartite(L, R, name)
+    return B, [(u, v) for u in range(1, L + 1) for v in rn(u)]
+
+
 def computed_dag(n, E, name=None):
     """A DirectedGraph whose edges (u -> v, u < v) are answered by overridden public methods."""
     import cnfgen.graphs as g
